@@ -162,7 +162,12 @@ def run_case(case):
                 dist = np.linalg.norm(v_ha, axis=1)
                 ang = oracle.angle(v_hd, v_ha)
                 present[f] = (dist < dcut) & (ang > acut)
-                amb |= (np.abs(dist - dcut) <= 1e-5) | ((np.abs(ang - acut) <= 1e-5) & (dist < dcut + 1e-5))
+                # the function works on float32 coordinates (resolution eps32*|x|): a distance is uncertain by a few of those, an
+                # angle by that over the shorter leg (kicked / unfolded variants have legs of 0.05 nm, scattered atoms sit 20 nm out)
+                res = oracle.EPS32 * (float(np.abs(x[f]).max()) + 1.0)
+                dmar = 1e-5 + 8 * res
+                amar = 1e-5 + 16 * res / np.maximum(np.minimum(dist, np.linalg.norm(v_hd, axis=1)), 1e-3)
+                amb |= (np.abs(dist - dcut) <= dmar) | ((np.abs(ang - acut) <= amar) & (dist < dcut + dmar))
                 close |= (np.abs(dist - dcut) <= 1e-3) | (np.abs(ang - acut) <= 1e-2)
             frac = present.sum(0) / nf
             want = {tuple(int(v) for v in trip[k]) for k in range(len(trip)) if frac[k] > freq and not amb[k]}
@@ -202,7 +207,9 @@ def run_case(case):
                     cut = 0.33 - 0.000044 * delta ** 2
                     ok = rda < cut
                     # sensitivity of the cutoff to the angle: d(cut)/d(delta[rad]) = 2*0.000044*delta*(180/pi)
-                    band = 1e-5 + 1e-5 * (2 * 0.000044 * delta * 180 / math.pi)
+                    res = oracle.EPS32 * (float(np.abs(x[f]).max()) + 1.0)
+                    aerr = 1e-5 + 16 * res / np.maximum(np.minimum(rda, np.linalg.norm(v_dh, axis=1)), 1e-3)
+                    band = 1e-5 + 8 * res + aerr * (2 * 0.000044 * delta * 180 / math.pi)
                     amb = np.abs(rda - cut) <= band
                     want = {tuple(int(v) for v in trip[k]) for k in range(len(trip)) if ok[k] and not amb[k]}
                     maybe = {tuple(int(v) for v in trip[k]) for k in range(len(trip)) if amb[k]}
